@@ -188,6 +188,10 @@ def _validate_batch(wd, module, cfg, traces, ids, v, workers, timeout, diagnose)
             if ce and isinstance(ce[-1][1], dict) and 'tid' in ce[-1][1]:
                 tid = ce[-1][1]['tid']
                 line = ce[-1][1].get('l')
+            if tid is None and workers != 1:
+                # interleaved output of several workers can garble the printed counterexample: once more, single worker
+                workers = 1
+                continue
             if tid is None:
                 raise TLCError('monitor %s violated but no tid in counterexample\n%s' % (r.violated, r.out[-3000:]))
             v.rejected[ids[tid - 1]] = {'reason': 'monitor', 'monitor': r.violated, 'line': line,
